@@ -211,6 +211,21 @@ def check_outliers(si, oi, it, ma):
         return f"max_iterations=1 but anchors {anchors.tolist()}"
     if not np.allclose(tr.apply(mobile), fitted, atol=1e-4):
         return "transformation.apply(mobile) != returned coordinates"
+    # the same with one fixed model and a stack of mobile models (coordinates and atom arrays)
+    for depth in (1, 2):
+        mstack = np.stack([mobile] * depth)
+        fa = struc.AtomArray(n)
+        fa.coord = fixed
+        ma = struc.stack([fa] * depth)
+        ma.coord = mstack.copy()
+        for fx_, mb_ in ((fixed, mstack), (fa, ma)):
+            try:
+                f2, t2, a2 = struc.superimpose_without_outliers(fx_, mb_, min_anchors=min_anchors, max_iterations=max_iter)
+            except Exception as e_:
+                return f"one fixed model, {depth} mobile model(s) ({type(mb_).__name__}): {type(e_).__name__}: {e_}"
+            c2 = np.asarray(struc.coord(f2), dtype=float)
+            if c2.shape != (depth, n, 3) or sorted(np.asarray(a2).tolist()) != sorted(anchors.tolist()) or not np.allclose(c2[0], np.asarray(fitted, dtype=float), atol=2e-3):
+                return f"one fixed model, {depth} mobile model(s) ({type(mb_).__name__}): anchors {sorted(np.asarray(a2).tolist())} vs {sorted(anchors.tolist())}, shape {c2.shape}"
     mask = np.zeros(n, dtype=bool)
     mask[anchors] = True
     ref_fit, ref_tr = struc.superimpose(fixed, mobile, atom_mask=mask)
